@@ -16,6 +16,7 @@ class FieldRanges:
         self.models = {r: decode.build(repo, r, self.B) for r in ('ARM', 'T16', 'T32')}
         self.by_abstract = {}
         self.by_concrete = {}
+        self._feas = {}
         for rm in self.models.values():
             for name, em in rm.encodings.items():
                 d = {}
@@ -89,3 +90,47 @@ class FieldRanges:
 
     def for_abstract(self, name):
         return self.by_abstract.get(name, {})
+
+    def feasible(self, abstract, assign):
+        """Can the fields take these values *together* on an accepted word of some encoding of `abstract`?
+        assign: {field: int}.  Exact (decode model)."""
+        key = (abstract, tuple(sorted(assign.items())))
+        r = self._feas.get(key)
+        if r is not None:
+            return r
+        B = self.B
+        res = False
+        for rm in self.models.values():
+            for name, em in rm.encodings.items():
+                if em.abstract != abstract:
+                    continue
+                cond = em.accept
+                it = em.interp
+                for f, val in assign.items():
+                    v = em.kwargs.get(f)
+                    if v is None:
+                        cond = 0
+                        break
+                    c2 = 0
+                    for c, p in v.cases:
+                        if isinstance(p, Int):
+                            c2 = B.OR(c2, B.AND(c, it.i_eq(p, it.const(val))))
+                        else:
+                            c2 = B.OR(c2, c)      # non-integer payload: no constraint
+                    cond = B.AND(cond, c2)
+                    if cond == 0:
+                        break
+                if cond != 0:
+                    res = True
+                    break
+            if res:
+                break
+        self._feas[key] = res
+        return res
+
+    def values(self, abstract, field, limit=64):
+        """Exact set of values of a small field over all accepted words."""
+        r = self.by_abstract.get(abstract, {}).get(field)
+        if not isinstance(r, Iv) or not r.finite() or r.size() > limit:
+            return None
+        return {v for v in range(int(r.lo), int(r.hi) + 1) if self.feasible(abstract, {field: v})}
